@@ -17,3 +17,7 @@ Lemma rules_sorted_by_key_ok : rules_sorted_by_key = Some true.
 Proof. vm_compute. reflexivity. Qed.
 Lemma scope_follows_memento_fn_ok : scope_follows_memento_fn = Some true.
 Proof. vm_compute. reflexivity. Qed.
+
+(** distinct helper functions get distinct rule keys, also when they are anonymous (lambdas share one qualified name) *)
+Lemma anonymous_helpers_distinct_ok : anonymous_helpers_distinct = Some true.
+Proof. vm_compute. reflexivity. Qed.
